@@ -1003,7 +1003,7 @@ def replay(ctx: C.Ctx, doc, from_corpus: bool = False) -> None:
 def run(ctx: C.Ctx) -> None:
     run_corpus(ctx)
     rng = ctx.rng
-    n = ctx.n(60, 1500)
+    n = ctx.n(300, 8000)
     coll: List[CaseResult] = []
     profiles = ["plain", "special", "control", "wide", "mixed", "latin", "wsp"]
     for i in range(n):
